@@ -110,6 +110,13 @@ pub struct Data {
     pub bytes:  Vec<u8>,
 }
 
+/// A table entry: an internal function (index into `Module::funcs`) or an imported host function.
+#[derive(Clone, Copy, Debug, PartialEq, Eq, Serialize, Deserialize)]
+pub enum TRef {
+    Func(u32),
+    Host(u32),
+}
+
 #[derive(Clone, Debug, Serialize, Deserialize)]
 pub struct Module {
     /// Extra signatures used by call_indirect (function signatures are added automatically).
@@ -121,8 +128,8 @@ pub struct Module {
     /// initial / maximum pages
     pub memory:  Option<(u32, Option<u32>)>,
     pub globals: Vec<Global>,
-    /// Table contents: indices into `funcs` (internal) — `None` = uninitialised slot.
-    pub table:   Vec<Option<u32>>,
+    /// Table contents: `None` = uninitialised slot.
+    pub table:   Vec<Option<TRef>>,
     pub data:    Vec<Data>,
     /// When set, function 0 stores every global to memory at this address before returning.
     pub epilogue_addr: Option<u32>,
@@ -529,7 +536,10 @@ pub fn emit(m: &Module) -> Vec<u8> {
                 let st = i;
                 let mut v = Vec::new();
                 while i < m.table.len() && m.table[i].is_some() {
-                    v.push(em.nimports + m.table[i].unwrap());
+                    v.push(match m.table[i].unwrap() {
+                        TRef::Func(f) => em.nimports + f,
+                        TRef::Host(h) => h,
+                    });
                     i += 1;
                 }
                 segs.push((st as u32, v));
